@@ -453,6 +453,50 @@ func (w *World) handedOver(owner, field string) (bool, string) {
 				return true, site(w, fs.In)
 			}
 		}
+		// the same through helpers of Commit: on every successful path that starts with
+		// the field set, the last thing done to the field is a store of nil
+		where := ""
+		ev := func(in ssa.Instruction) string {
+			st, ok := in.(*ssa.Store)
+			if !ok {
+				return ""
+			}
+			fa, ok := st.Addr.(*ssa.FieldAddr)
+			if !ok {
+				return ""
+			}
+			n, f := fieldOf(fa.X.Type(), fa.Field)
+			if n == nil || f == nil || f.Name() != field || n.Obj().Name() != owner {
+				return ""
+			}
+			if c, isC := st.Val.(*ssa.Const); isC && c.IsNil() {
+				where = site(w, in)
+				return "NIL"
+			}
+			return "SET"
+		}
+		fe := w.newFactEval(nil, AR(`^recv\.`+regexp.QuoteMeta(field)+`$`, "!=", "^nil$"))
+		saved := w.branchMarkers
+		w.branchMarkers = false
+		w.enumDepth = 3
+		ps, complete := w.enumPaths(cm, fe.eval, ev, 4000)
+		w.enumDepth = 0
+		w.branchMarkers = saved
+		if complete && len(fe.used) > 0 {
+			all, nOK := true, 0
+			for _, p := range ps {
+				if p.Term != "ok" && p.Term != "unknown" {
+					continue
+				}
+				nOK++
+				if len(p.Events) == 0 || p.Events[len(p.Events)-1] != "NIL" {
+					all = false
+				}
+			}
+			if all && nOK > 0 {
+				return true, where
+			}
+		}
 	}
 	return false, ""
 }
@@ -471,6 +515,11 @@ func checkC07(w *World, r *Report) {
 	}
 	startupLag(w, r, "R-1")
 	r4(w, r, fns)
+	// R-5: what Commit writes must not depend on what the read cache holds — a restart
+	// empties it: only a write marks an item for the next commit (C18 L-6)
+	if r.importObs(w, func(t *Report) { l6(w, t) }, "L-6", "R-5") == 0 {
+		r.Undecided("R-5", "marks-for-commit", "no insertion into the overlay's updated items found")
+	}
 	r.Floor("R-3", 8, "write-back sites")
 	r.Floor("R-4", 1, "item fields whose nil-ness block execution tests")
 	r.Floor("R-1", 12, "controller fields written during block execution")
@@ -990,10 +1039,10 @@ func r2(w *World, r *Report) {
 	}
 	gc := needFn(r, "R-2", w, fref{"ctrlers/gov", "GovCtrler", "Commit"})
 	if gc != nil {
-		st := w.findStore(gc, "recv.GovParams", "recv.newGovParams")
+		st, stFn := w.findStoreDeep(gc, "recv.GovParams", "recv.newGovParams")
 		// on every successful path on which parameters were handed over (the ledger record
 		// a restart loads is written wherever they are handed over: applyProposals)
-		installed := st != nil && w.condCanonHolds(st.Block(), "(recv.newGovParams != nil)", 1)
+		installed := st != nil && w.condHoldsDeep(gc, stFn, st, "(recv.newGovParams != nil)", 1, 0)
 		if installed {
 			ev := func(in ssa.Instruction) string {
 				if in == ssa.Instruction(st) {
@@ -1004,7 +1053,9 @@ func r2(w *World, r *Report) {
 			fe := w.newFactEval(nil, AR(`^recv\.newGovParams$`, "!=", "^nil$"))
 			saved := w.branchMarkers
 			w.branchMarkers = false
+			w.enumDepth = 3
 			ps, complete := w.enumPaths(gc, fe.eval, ev, 4000)
+			w.enumDepth = 0
 			w.branchMarkers = saved
 			nOK := 0
 			for _, p := range ps {
